@@ -433,6 +433,27 @@ func mustBeSignedHeader(headerKey string) bool {
 	return false
 }
 
+// canonicalHeaderValue trims a header value and converts sequential spaces to
+// a single space, as SigV4 requires for canonical header values.
+func canonicalHeaderValue(value string) string {
+	value = strings.TrimSpace(value)
+	if !strings.Contains(value, "  ") {
+		return value
+	}
+	var canonicalValue strings.Builder
+	canonicalValue.Grow(len(value))
+	previousWasSpace := false
+	for idx := 0; idx < len(value); idx++ {
+		ch := value[idx]
+		if ch == ' ' && previousWasSpace {
+			continue
+		}
+		previousWasSpace = ch == ' '
+		canonicalValue.WriteByte(ch)
+	}
+	return canonicalValue.String()
+}
+
 // collectSignedHeaders returns the headers participating in the signature,
 // lowercased and sorted by key, shared by the canonical-headers and
 // signed-headers serializations.
@@ -446,7 +467,11 @@ func collectSignedHeaders(r *http.Request, headersToInclude []string) []pair {
 	for headerKey, headerValues := range r.Header {
 		headerKey = strings.ToLower(headerKey)
 		if includeInCanonicalHeaders(headerKey, headersToInclude) {
-			headerVal := strings.TrimSpace(strings.Join(headerValues, ","))
+			canonicalValues := make([]string, len(headerValues))
+			for idx, headerValue := range headerValues {
+				canonicalValues[idx] = canonicalHeaderValue(headerValue)
+			}
+			headerVal := strings.Join(canonicalValues, ",")
 			headers = append(headers, pair{
 				key: headerKey,
 				val: headerVal,
